@@ -295,6 +295,9 @@ func (p *Progress) serve(s *pState, cw *cwriter.Writer) {
 			if err != nil {
 				_, _ = fmt.Fprintln(s.debugOut, err.Error())
 			} else if s.autoRefresh {
+				// all bars are cancelled by now, wait for them to quit so
+				// that last frame renders their final state
+				p.bwg.Wait()
 				update := make(chan bool)
 				for i := 0; i == 0 || <-update; i++ {
 					if err := s.render(w); err != nil {
